@@ -227,6 +227,23 @@ def pdata_reader_other_pdus_fail(chk, fx, rule):
     chk.floor(rule, "reader functions with a match over Pdu", n, 2)
 
 
+def open_options_passthrough(chk, fx, rule):
+    """OpenFileOptions::{open_file, from_reader} hand every configured option to the reader unchanged (C09: the preamble option,
+    C07: the odd-length strategy, C10: the character set override ... are what the caller set)"""
+    chk.rule(rule, "OpenFileOptions::open_file / from_reader call *_with_all_options(source, self.<option> ...) with every option field passed as it is, each exactly once")
+    n = 0
+    for nm in ("open_file", "from_reader"):
+        h = fx.method("dicom_object", "dicom_object::file::OpenFileOptions", nm)
+        calls = [x for x in H.walk(h["body"]) if H.kind(x) == "call" and re.search(r"::(open_file|from_reader)_with_all_options$", H.callee(x) or "")]
+        if len(calls) != 1:
+            raise facts.MissingAnchor(f"OpenFileOptions::{nm}: call of *_with_all_options")
+        n += 1
+        args = [H.show(a, 4) for a in H.call_args(calls[0])[1:]]
+        fields = ["self.data_dictionary", "self.ts_index", "self.read_until", "self.read_to", "self.read_preamble", "self.odd_length", "self.charset_override"]
+        chk.expect(sorted(args) == sorted(fields), rule, f"OpenFileOptions::{nm}", "options-as-set", fields, args, loc=C.fn_loc(h))
+    chk.floor(rule, "option forwarders", n, 2)
+
+
 def writer_text_identity(chk, fx, rule):
     """StatefulEncoder::convert_text_untrailed encodes the given text as it is (C04 exact lengths; C31: the command group length is
     computed from the in-memory text lengths, so the writer must not shorten or lengthen a value beyond the even-length pad)"""
